@@ -17,6 +17,44 @@ def fmt_parts(t, ex=None, p=None):
     return r[0], [ex.deref_val(p, v) for v in r[1]]
 
 
+def text_pieces(t, ex=None, p=None):
+    """(literal text, [values]) a piece of text is made of, whether it was built by format!, by `x.to_string() + "lit"` or
+    by push_str: the literals concatenated (a format template as the driver prints it), and the displayed values in order."""
+    r = fmt_parts(t, ex, p)
+    if r is not None:
+        return r
+    lits, vals = [], []
+
+    def walk(x, depth=0):
+        if depth > 8:
+            return False
+        n_ = 0
+        while x[0] in ("ref", "deref") and n_ < 6:
+            if x[0] == "ref":
+                if ex is not None and p is not None:
+                    x2 = ex.deref_val(p, x)
+                else:
+                    x2 = x[3] if len(x) > 3 else x
+                if x2 == x:
+                    break
+                x = x2
+            else:
+                x = x[1]
+            n_ += 1
+        if x[0] == "app" and re.search(r"ops::Add<.*>>::add$", str(x[1])) and len(x[2]) == 2:
+            return walk(x[2][0], depth + 1) and walk(x[2][1], depth + 1)
+        if x[0] == "const" and isinstance(x[1], str) and x[1].startswith('"'):
+            lits.append(x[1].strip('"'))
+            return True
+        if x[0] == "app":
+            return False
+        vals.append(x)
+        return True
+    if t is not None and walk(t) and (lits or vals) and any(x_[0] == "app" and re.search(r"ops::Add<.*>>::add$", str(x_[1])) for x_ in S.subterms(t)):
+        return "".join(lits), vals
+    return None
+
+
 def _fmt_parts(t):
     for x in S.subterms(t):
         if x[0] == "app" and re.search(r"fmt::Arguments::<.*>::new::", x[1]):
@@ -155,7 +193,7 @@ def analyze(ctx, want):
             elif "nfa" in S.fstr(dfa):
                 # lookahead cluster
                 it = re.search(r"(item@bb\d+)", S.fstr(dfa))
-                fp = fmt_parts(pre, ex, p)
+                fp = text_pieces(pre, ex, p)
                 cl = p.calls(r"Scope::<.*>::cluster$")
                 sl = [e for e in p.events if e[0] == "call" and re.search(r"::set_label$", e[2]) and "cluster" in S.fstr(argval(e, 0))]
                 lab = fmt_parts(argval(sl[-1], 1), ex, p) if sl else None
